@@ -101,7 +101,14 @@ func MakeReceptorSAN(dnsNames []string, ipAddresses []net.IP, nodeIDs []string) 
 		if err != nil {
 			return nil, err
 		}
-		rawValues = append(rawValues, asn1.RawValue{Tag: 0, Class: 2, IsCompound: true, Bytes: asnOtherName[2:]})
+		// Strip the outer SEQUENCE header by parsing it: its length field is
+		// longer than one byte once the node ID reaches 113 bytes.
+		var otherNameSeq asn1.RawValue
+		_, err = asn1.Unmarshal(asnOtherName, &otherNameSeq)
+		if err != nil {
+			return nil, err
+		}
+		rawValues = append(rawValues, asn1.RawValue{Tag: 0, Class: 2, IsCompound: true, Bytes: otherNameSeq.Bytes})
 	}
 	sanBytes, err := asn1.Marshal(rawValues)
 	if err != nil {
